@@ -28,7 +28,7 @@ class C06(TreeCheck):
         n = 12 if tier == "quick" else 80
         out = []
         for i in range(n):
-            fam = {0: "branching", 1: "branching", 2: "already_shutting_down", 3: "already_shutting_down_factory", 4: "churn", 5: "churn", 6: "idle_with_descendants", 7: "idle_with_descendants"}.get(i % 12)
+            fam = {0: "branching", 1: "branching", 2: "already_shutting_down", 3: "already_shutting_down_factory", 4: "churn", 5: "churn", 6: "idle_with_descendants", 7: "idle_with_descendants", 8: "graceful_after_forced"}.get(i % 12)
             prog, meta = programs.g_kill(rng, family=fam)
             hide = (rng.random() < 0.35 if i % 12 not in (0, 1) else True) if fam not in ("churn", "idle_with_descendants") else (i % 12 in (5, 7) and rng.random() < 0.5)
             meta["hide_psutil"] = hide
@@ -38,6 +38,10 @@ class C06(TreeCheck):
     def derive(self, base, F, rng, tier):
         quick = tier == "quick"
         out = explore.derive_D(F, base, rng, 10 if quick else 30, quals=QUALS, delay=rng.choice([0.05, 0.3]))
+        if base["meta"].get("family") == "graceful_after_forced":
+            # the manager thread is held where it is about to read the kill request, while the other thread's graceful request arrives
+            for pt in explore.points_of(F, role="driver", thr="mgr", quals=["_ExecutorManagerThread.flag_executor_shutting_down", "_ExecutorManagerThread.is_shutting_down"])[:4]:
+                out.append(({"rules": [explore.rule(pt, ["sleep", 0.15], hit=0)]}, {"mode": "DS", "fn": pt["qual"], "at": "kill_request_read"}))
         out += explore.derive_Z(rng, 2 if quick else 6)
         return out
 
